@@ -123,8 +123,10 @@ func (vc *VC) cutLoop(f *Frame, l *Loop, n *Node) {
 	}
 	f.loopNexts[loopKey(l, n)] = n.St.H["next"]
 	for i, c := range l.Ann.Inv {
-		vc.oblige("loop-inv-entry", fmt.Sprintf("invariant %d of loop %d of %s does not hold on entry: %s", i, l.Ordinal, f.fn.Name(), c.Text),
-			n.Reach, env.evalGoal(c.E), append([]string{"@loop"}, c.Tags...)...)
+		for _, pe := range splitConst(c.E) {
+			vc.oblige("loop-inv-entry", fmt.Sprintf("invariant %d of loop %d of %s does not hold on entry: %s", i, l.Ordinal, f.fn.Name(), c.Text),
+				n.Reach, env.evalGoal(pe), append([]string{"@loop"}, c.Tags...)...)
+		}
 	}
 	// havoc loop-carried values and everything the body may modify
 	newVals := map[string]*SV{}
